@@ -250,6 +250,53 @@ structure BicModel (α : Type) where
   empirical_covariance : List (Arr2 α)
   point_labels : List Int
 
+/-- a Python float that came out of `int / int`, used among other floats: numerator over denominator in the scalar type -/
+def ratCast {α} [IntCast α] [Div α] (q : Rat) : α := ((q.num : Int) : α) / (((q.den : Nat) : Int) : α)
+
+/-- an int used where NumPy broadcasts it against a matrix (`acc = 0; acc += M`): the constant function, no shape of its own -/
+def Arr2.ofInt {α} [IntCast α] (k : Int) : Arr2 α := ⟨0, 0, fun _ _ => ((k : Int) : α)⟩
+
+/-- `A + B` where either side may be a broadcast scalar (`Arr2.ofInt`): the larger shape, entries added -/
+def Arr2.addB {α} [Add α] (A B : Arr2 α) : Arr2 α := ⟨max A.rows B.rows, max A.cols B.cols, fun r c => A.get r c + B.get r c⟩
+
+/-- `np.mean(M)`: the mean of all entries -/
+def Arr2.meanAll {α} [Zero α] [Add α] [Div α] [IntCast α] (M : Arr2 α) : α :=
+  sumTo M.rows (fun i => sumTo M.cols (fun j => M.get i j)) / (((M.rows * M.cols : Nat) : Int) : α)
+
+/-- `M[index_list, :]` -/
+def Arr2.takeRows {α} (M : Arr2 α) (is : List Int) : Arr2 α :=
+  ⟨is.length, M.cols, fun r c => M.get (idx M.rows (is.getD r 0)) c⟩
+
+/-- `np.mean(M, axis=0)`: the mean of every column -/
+def Arr2.meanAxis0 {α} [Zero α] [Add α] [Div α] [IntCast α] (M : Arr2 α) : Arr1 α :=
+  ⟨M.cols, fun j => sumTo M.rows (fun i => M.get i j) / (((M.rows : Nat) : Int) : α)⟩
+
+/-- `v - s` (a scalar subtracted from every entry) -/
+def Arr1.subScalar {α} [Sub α] (v : Arr1 α) (s : α) : Arr1 α := ⟨v.n, fun k => v.get k - s⟩
+
+/-- `v.reshape(-1, 1)`: a column -/
+def colOf {α} (v : Arr1 α) : Arr2 α := ⟨v.n, 1, fun r _ => v.get r⟩
+
+/-- `A @ B` -/
+def matMul {α} [Zero α] [Add α] [Mul α] (A B : Arr2 α) : Arr2 α :=
+  ⟨A.rows, B.cols, fun r c => sumTo A.cols (fun k => A.get r k * B.get k c)⟩
+
+/-- `k * M` for a Python int `k` -/
+def Arr2.scaleInt {α} [Mul α] [IntCast α] (k : Int) (M : Arr2 α) : Arr2 α := ⟨M.rows, M.cols, fun r c => ((k : Int) : α) * M.get r c⟩
+
+/-- `np.trace(M)` -/
+def Arr2.trace {α} [Zero α] [Add α] (M : Arr2 α) : α := sumTo (min M.rows M.cols) (fun k => M.get k k)
+
+/-- what `calinski_harabasz_index` reads of a cluster / of a model state -/
+structure ChCluster where
+  size : Int
+  member_points : List Int
+
+structure ChModel where
+  clusters : List ChCluster
+
+instance : Inhabited ChCluster := ⟨⟨0, []⟩⟩
+
 /-- a sparsity weight: one number or an `NW × NW` array (`isinstance` dispatch in `compute_lambda_sum`) -/
 inductive Lambda (α : Type) where
   | scalar (v : α)
